@@ -2,13 +2,13 @@
 # tools/process_seed.sh <ID> <mN> <check ids...> : confirm a sub-agent's seeded change, keep it
 # under /verif/seeded/<ID>-<mN>/ and run the given checks against it (scratch copies only).
 ID="$1"; M="$2"; shift 2
-if [ "${ROUND:-1}" = "2" ]; then SRC=/tmp/seed2-$ID-out/$M; DST=/verif/seeded/$ID-r2$M; else SRC=/tmp/seed-$ID-out/$M; DST=/verif/seeded/$ID-$M; fi
+if [ "${ROUND:-1}" = "3" ]; then SRC=/tmp/seed3-$ID-out/$M; DST=/verif/seeded/$ID-r3$M; elif [ "${ROUND:-1}" = "2" ]; then SRC=/tmp/seed2-$ID-out/$M; DST=/verif/seeded/$ID-r2$M; else SRC=/tmp/seed-$ID-out/$M; DST=/verif/seeded/$ID-$M; fi
 [ -f "$SRC/patch.diff" ] || { echo "no $SRC/patch.diff"; exit 2; }
 mkdir -p "$DST"; cp "$SRC/patch.diff" "$DST/"; cp "$SRC/meta.json" "$DST/agent_meta.json" 2>/dev/null; rm -rf "$DST/demo"; cp -r "$SRC/demo" "$DST/demo" 2>/dev/null
 echo "######## $ID $M"
 conf=$(/verif/tools/confirm_seed.sh "$SRC" 2>&1); echo "$conf"
 export RM=${SEED_RM:-/var/tmp/repo-s2} VM=${SEED_VM:-/var/tmp/verif-s}
-res=$(/verif/tools/mutant.sh "$SRC/patch.diff" "$@" 2>&1 | grep -E "^(---|VIOLATION|KNOWN|INFRA|C[0-9]+ tier|  )" | cut -c1-420)
+res=$(/verif/tools/mutant.sh "$SRC/patch.diff" "$@" 2>&1 | grep -E "^(---|VIOLATION|KNOWN|INFRA|C[0-9]+ tier|  )" | cut -c1-420 | iconv -f utf-8 -t ascii//TRANSLIT -c 2>/dev/null)
 echo "$res" | grep -E "^(---|C[0-9]+ tier|  )" | head -30
 python3 - "$ID" "$M" "$DST" <<PY
 import json,sys,re
